@@ -43,6 +43,9 @@ pub enum M {
     StructVariant(&'static str, u32, &'static str, Vec<(&'static str, M)>),
     /// a value whose own Serialize implementation fails
     Fail,
+    /// a value that picks its representation from `Serializer::is_human_readable` (like IpAddr, Uuid, …):
+    /// a string for human-readable formats (JSON is one), a number otherwise
+    HumanReadableProbe,
 }
 
 pub fn kind(m: &M) -> &'static str {
@@ -51,7 +54,7 @@ pub fn kind(m: &M) -> &'static str {
         M::U64(_) => "u64", M::U128(_) => "u128", M::F32(_) => "f32", M::F64(_) => "f64", M::Char(_) => "char", M::Str(_) => "string", M::Bytes(_) => "bytes", M::None | M::Some(_) => "option",
         M::Unit => "unit", M::UnitStruct(_) => "unit_struct", M::UnitVariant(..) => "unit_variant", M::NewtypeStruct(..) => "newtype_struct", M::NewtypeVariant(..) => "newtype_variant",
         M::Seq(_) => "seq", M::Tuple(_) => "tuple", M::TupleStruct(..) => "tuple_struct", M::TupleVariant(..) => "tuple_variant", M::Map(_) => "map", M::Struct(..) => "struct",
-        M::StructVariant(..) => "struct_variant", M::Fail => "failing-serialize",
+        M::StructVariant(..) => "struct_variant", M::Fail => "failing-serialize", M::HumanReadableProbe => "is_human_readable-probe",
     }
 }
 
@@ -131,6 +134,13 @@ impl Serialize for M {
                 q.end()
             }
             M::Fail => Err(serde::ser::Error::custom("this value refuses to be serialized")),
+            M::HumanReadableProbe => {
+                if s.is_human_readable() {
+                    s.serialize_str("human readable")
+                } else {
+                    s.serialize_u8(0)
+                }
+            }
         }
     }
 }
@@ -255,6 +265,8 @@ pub fn image(m: &M) -> Image {
             Err(e) => return e,
         },
         M::Fail => return Image::MustFail,
+        // "coincides with the serde_json image": serde_json is a human-readable format
+        M::HumanReadableProbe => Value::String("human readable".into()),
     })
 }
 
@@ -532,6 +544,7 @@ fn run(ctx: &mut Ctx) {
     // every scalar alone, under every wrapper, and under every wrapper twice; Fail at every position
     let mut leaves = sc.clone();
     leaves.push(M::Fail);
+    leaves.push(M::HumanReadableProbe);
     for s in &leaves {
         if ctx.mine() {
             judge(ctx, s, "scalar");
@@ -563,6 +576,16 @@ fn run(ctx: &mut Ctx) {
             M::NewtypeStruct("Alpha", Box::new(M::Some(Box::new(M::Unit)))), M::Some(Box::new(M::NewtypeStruct("beta", Box::new(M::None)))),
             M::Char('é'), M::Char('\u{1F600}'), M::Str("\u{0}".into()),
         ] {
+            // real library types whose Serialize consults is_human_readable
+            if let M::Char('é') = m {
+                let ip = std::net::Ipv4Addr::new(127, 0, 0, 1);
+                ctx.count();
+                ctx.hit("kind:is_human_readable-std-type");
+                match guard(|| ip.serialize(ValueSerializer)) {
+                    Ok(Ok(Value::String(s))) if s == "127.0.0.1" => {}
+                    other => ctx.violation("C13 differs-from-serde_json is_human_readable-probe", format!("Ipv4Addr serialized to {other:?}, serde_json gives \"127.0.0.1\""), json!({"model": "std::net::Ipv4Addr 127.0.0.1"})),
+                }
+            }
             judge(ctx, &m, "wide-containers");
             judge(ctx, &M::Struct("Wrap", vec![("inner", m.clone()), ("after", M::Bool(true))]), "wide-containers");
         }
